@@ -45,6 +45,23 @@ BUDGET = {
 WALL_CAP = {"quick": 600, "thorough": 4 * 3600}
 DEFAULT_SEED = {"quick": 20260923, "thorough": 7}
 
+# reach probes that a batch of this property is expected to hit (a probe stuck at
+# zero means the workload or fault mix must change); reported, never an exit status
+REQUIRED_PROBES = {
+    "C09": ["i3:checked-shared", "i3:checked-while-bc-dirty", "explicit-result-fed-to-implicit",
+            "edit:through-retained-view", "edit:view-of-view", "solve:shared-bc-dirty",
+            "term-reused-3+-solves", "fault-while-target-dirty", "periodic:z-axis-on"],
+    "C14": ["algebra:v:add:", "algebra:v:pow:", "algebra:f:sub:scalar-var", "algebra:funceval:3",
+            "algebra:faceeval:2", "algebra:funceval:8", "scribble:v", "scribble:b"],
+    "C15": ["build:faceLocations:", "build:harmonicMean:", "build:convectionTVDupwindRHSTerm:",
+            "build:tvdMean:", "rebuild:", "scribble:t", "scribble:f"],
+    "C03": ["i4:flags:Grid3D:--P", "i4:flags:SphericalGrid3D:--P", "i4:flags:CylindricalGrid3D:-P-",
+            "i4:flags:PolarGrid2D:-P", "i4:flags:Grid1D:P", "util:fixedGradient-scale_coeffs"],
+    "C04": ["solve:term-format-csc", "term-reused-3+-solves", "solve:shared-bc-dirty"],
+    "C12": ["fixedpoint:alpha-field", "fixedpoint:alpha-scalar", "transient:alpha-field",
+            "limit:dt-inf", "limit:dt-zero", "explicit-result-fed-to-implicit"],
+}
+
 COMPONENTS = {
     "real": ["pyfvtool meshes, boundary conditions, CellVariable/FaceVariable, all term builders",
              "solvePDE / solveMatrixPDE / solveExplicitPDE",
@@ -287,6 +304,9 @@ def write_evidence(prop, tier, master, tot, wall, wall_runs, nviol, replays, n_f
         "faults_armed": {k.split(":", 1)[1]: v for k, v in tot["stats"].items()
                          if k.startswith("fault-armed:")},
         "reach_probes": dict(sorted(tot["probes"].items())),
+        "required_probes_missing": [q for q in REQUIRED_PROBES.get(prop, [])
+                                    if not any(k.startswith(q) and v > 0
+                                               for k, v in tot["probes"].items())],
         "other_stats": {k: v for k, v in tot["stats"].items()
                         if not k.startswith(("op:", "fault-"))},
         "notes_other_properties": tot["notes"][:5],
